@@ -109,7 +109,7 @@ func init() {
 		ID:    "C02",
 		Level: "proof",
 		Funcs: []string{"tcell.(*tScreen).parseRune", "tcell.(*tScreen).parseFunctionKey", "tcell.(*tScreen).parseFocus", "tcell.(*tScreen).parseClipboard",
-			"tcell.(*tScreen).parseXtermMouse", "tcell.(*tScreen).parseSgrMouse", "tcell.(*tScreen).collectEventsFromInput", "tcell.(*tScreen).inputLoop"},
+			"tcell.(*tScreen).parseXtermMouse", "tcell.(*tScreen).parseSgrMouse", "tcell.(*tScreen).collectEventsFromInput", "tcell.(*tScreen).inputLoop", "tcell.(*tScreen).escBefore"},
 		Custom: []func(*PropRun){c02Replays, c02KeyTables},
 		Trusted: []string{"bytes.Buffer.ReadBytes consumes up to and including the first delimiter (assumed from its documentation; the body uses an assembly IndexByte); other bytes.Buffer methods executed from source",
 			"base64 Decode/DecodedLen: bounds only (assumed)", "transform.Transformer contract (bounds, no output without input)",
